@@ -280,6 +280,25 @@ class Ctx:
             self.fail("trace-rejected:fixtures:" + module,
                       {"kind": "trace", "trace": trace, "info": v["info"], "tlc_output": v["out"]})
 
+    def families_leg(self, aspect):
+        """fixture families (same workbook saved in several formats under /repo/tests): the abstract
+        content read through each format's reader must agree (tla/api/CrossFormat.tla)"""
+        trace = os.path.join(self.work, "families_%s.ndjson" % aspect)
+        rep = trace + ".report.json"
+        self.cvh(["drive", "families", "--aspect", aspect, "--out", trace, "--report", rep])
+        info = json.load(open(rep))
+        self.rules.append("fixture families: %d workbooks saved in 2-4 formats under /repo/tests, %d cell reports; "
+                          "aspect '%s' must agree across formats (CrossFormat.tla)" % (info["families"], info["cells"], aspect))
+        if info["cells"] == 0:
+            return
+        v = self.validate_trace("api", "CrossFormat", "CrossFormat.cfg", trace, timeout=600, name="families_" + aspect)
+        if v["accepted"]:
+            self.traces += 1
+            self.extra["family_events_validated_" + aspect] = v["events"]
+        else:
+            self.fail("trace-rejected:CrossFormat:" + aspect,
+                      {"kind": "trace", "trace": trace, "info": v["info"], "tlc_output": v["out"]})
+
     # ------------------------------------------------------------- harness
     def cvh(self, args, timeout=3600, check=True):
         cmd = [CVH] + [str(a) for a in args]
